@@ -246,7 +246,9 @@ def collision_scripts(rng, n, conflicting_returns=True, shadow_helpers=True):
         out += [HDR + b, HDR + a, HDR + b, HDR + a]
     # every kind the emitter hoists out of the main loop, declared at the top of its body (a Program is emitted twice by the digest)
     out += [HDR + "while True:\n    sv = Servo(9)\n    sv.write(10)\n    sleep(5)\n", HDR + "lcd = LCD(i2c_addr=39)\nwhile True:\n    led = Led(13)\n    sv = Servo(9)\n    m = DCMotor(2, 4, 5)\n    led.toggle()\n    sv.write(1)\n    sleep(5)\n",
-            HDR + "while True:\n    b = Button(2)\n    p = Potentiometer(\"A0\")\n    u = Ultrasonic(7, 8)\n    r = RGBLed(9, 10, 11)\n    mon.write(p.read())\n    sleep(5)\n"] if shadow_helpers else []
+            HDR + "while True:\n    b = Button(2)\n    p = Potentiometer(\"A0\")\n    u = Ultrasonic(7, 8)\n    r = RGBLed(9, 10, 11)\n    mon.write(p.read())\n    sleep(5)\n"]
+    # an expression deep enough to exhaust the interpreter's recursion limit inside the transpiler (rejected or not: no trace may stay)
+    out += [HDR + "total = " + " + ".join(f"r{i}" for i in range(700)) + "\n", HDR + "mon.write(" + " + ".join(["1"] * 1200) + ")\n"] if shadow_helpers else []
     # helpers with the same names but another call graph / other devices behind the same text
     out += [HDR + "def first():\n    return flash(1)\ndef flash(n):\n    return n\nq = first()\n", HDR + "def first():\n    return 1\ndef flash(n):\n    return n + 1\nq = first()\nw = flash(2)\nmon.write(w)\n",
             HDR + "lamp = Led(13)\ndef wake():\n    lamp.on()\n    return 1\nq = wake()\n", HDR + "lamp = RGBLed(9, 10, 11)\ndef wake():\n    lamp.on()\n    return 1\nq = wake()\n",
